@@ -79,6 +79,9 @@ func newShortcutDecoder() encoding.DecodeCompiler[Value] {
 	return encoding.DecodeCompilerFunc[Value](func(typ reflect.Type) (encoding.Decoder[Value, unsafe.Pointer], error) {
 		if typ != nil && typ.Kind() == reflect.Pointer && typ.Elem().ConvertibleTo(typeValue) {
 			return encoding.DecodeFunc(func(source Value, target unsafe.Pointer) error {
+				if source == nil {
+					return nil
+				}
 				s := reflect.ValueOf(source)
 				t := reflect.NewAt(typ.Elem(), target).Elem()
 				if s.Type().ConvertibleTo(typ.Elem()) {
